@@ -90,7 +90,7 @@ bad('c08-pair-del', 'C08', 'PAIR', 't2grids.py', "            del self.connectio
 bad('c08-backref', 'C08', 'PAIR', 't2grids.py', "            for block in con.block: block.connection_name.remove(connectionname)\n", "")
 bad('c08-rekey', 'C08', 'REKEY', 't2grids.py', "        self.block = dict([(blk.name, blk) for blk in self.blocklist])\n", "        for k, v in blockmap.items():\n            if k in self.block:\n                b = self.block[k]\n                del self.block[k]\n                self.block[v] = b\n")
 bad('c08-namekey', 'C08', 'NAMEKEY', 't2grids.py', "                rock = self.rocktype[rockname]\n                del self.rocktype[rockname]\n                rock.name = newrockname\n                self.rocktype[newrockname] = rock", "                rock = self.rocktype[rockname]\n                rock.name = newrockname")
-bad('c08-gen', 'C08', 'PAIR', 't2data.py', "        self.generatorlist, self.generator = [], {}\n        line = infile.readline()", "        self.generatorlist = []\n        line = infile.readline()")
+bad('c01-pairgen', 'C01', 'PAIR', 't2data.py', "        self.generatorlist, self.generator = [], {}\n        line = infile.readline()", "        self.generatorlist = []\n        line = infile.readline()")
 twin('c08-twin-helper', 'C08', 't2grids.py', "            del self.rocktype[rocktypename]\n            self.rocktypelist.remove(rt)", "            self.rocktypelist.remove(rt)\n            del self.rocktype[rocktypename]")
 # ---- C09
 bad('c09-orient', 'C09', 'ORIENT', 't2grids.py', "                        con.distance = con.distance[::-1]\n", "")
@@ -170,18 +170,44 @@ bad('c20-once', 'C20', 'ONCE', 't2data.py', "            if 0. < blk.volume < at
 bad('c20-once2', 'C20', 'ONCE', 't2data.py', "cell_index = geo.block_name_index[gen.block] - geo.num_atmosphere_blocks", "cell_index = geo.block_name_index[gen.block]")
 bad('c20-dispatch', 'C20', 'POST', 't2data.py', "                if oldtype == 'AUTOUGH2': self.convert_to_TOUGH2()\n                elif oldtype == 'TOUGH2': self.convert_to_AUTOUGH2()", "                if oldtype == 'TOUGH2': self.convert_to_TOUGH2()\n                elif oldtype == 'AUTOUGH2': self.convert_to_AUTOUGH2()")
 
+# ---- rules added after the second round of seeded changes (mutants differ from the seeds)
+bad('c03-optnum', 'C03', 'NONETEST', 'mulgrids.py', "            if col.surface is None: return lay.top\n", "            if not col.surface: return lay.top\n")
+bad('c01-optnum', 'C01', 'NONETEST', 't2data.py', "            if gen.hg is None or gen.hg >= 0:", "            if not gen.hg or gen.hg >= 0:")
+bad('c13-nonetest-any', 'C13', 'NONETEST', 't2incons.py', "if (k1 is None or k2 is None or k3 is None): permeability = None", "if not (k1 and k2 and k3): permeability = None")
+bad('c01-pure', 'C01', 'PURE', 't2data.py', "        genw = copy(gen.__dict__)\n", "        genw = gen.__dict__\n")
+twin('c01-pure-twin', 'C01', 't2data.py', "        genw = copy(gen.__dict__)\n", "        genw = dict(gen.__dict__)\n")
+bad('c19-argswap', 'C19', 'ARGSWAP', 't2data.py', "        self.transfer_generators_from(source, sourcegeo, geo,\n", "        self.transfer_generators_from(source, geo, sourcegeo,\n")
+bad('c02-shared', 'C02', 'SHARED', 'fixed_format_file.py', ["        self.line_spec, self.spec_width={}, {}\n", "    def __init__(self, filename, mode, specification,"],
+    ["        pass\n", "    line_spec, spec_width = {}, {}\n\n    def __init__(self, filename, mode, specification,"])
+bad('c02-fit-le', 'C02', 'FIT', 'fixed_format_file.py', "            valstr = ('%%*.*%s' % typ) % (width, prec, val)\n            if len(valstr) == width: return valstr", "            valstr = ('%%.*%s' % typ) % (prec, val)\n            if len(valstr) <= width: return valstr")
+bad('c13-flavour', 'C13', 'FLAVOUR', 't2incons.py', "        finished = False\n        timing = False\n        while not finished:", "        is_react = self.simulator == 'TOUGHREACT'\n        finished = False\n        timing = False\n        while not finished:")
+bad('c08-nameuse', 'C08', 'NAMEUSE', 't2grids.py', "            if self.rocktype_frequency(rt.name) == 0: unused_rocktypes.append(rt.name)", "            if not [blk for blk in self.blocklist if blk.rocktype is rt]: unused_rocktypes.append(rt.name)")
+twin('c08-nameuse-twin', 'C08', 't2grids.py', "            if self.rocktype_frequency(rt.name) == 0: unused_rocktypes.append(rt.name)", "            if not [blk for blk in self.blocklist if blk.rocktype.name == rt.name]: unused_rocktypes.append(rt.name)")
+bad('c08-uniqguard', 'C08', 'UNIQGUARD', 't2grids.py', "                        if mblockname in self.block:", "                        if mblockname in blkidict:")
+bad('c11-angidx', 'C11', 'ANGIDX', 'mulgrids.py', "        angles = [np.pi - (h[(i + 1) % self.num_nodes] - h[i]) for i in range(self.num_nodes)]", "        angles = [np.pi - (h[i] - h[i - 1]) for i in range(self.num_nodes)]")
+twin('c11-angidx-twin', 'C11', 'mulgrids.py', "        side = [self.node[i].pos - self.node[i - 1].pos for i in range(self.num_nodes)]\n        h = [vector_heading(s) for s in side]\n        angles = [np.pi - (h[(i + 1) % self.num_nodes] - h[i]) for i in range(self.num_nodes)]",
+     "        nn = self.num_nodes\n        side = [self.node[(i + 1) % nn].pos - self.node[i].pos for i in range(nn)]\n        h = [vector_heading(s) for s in side]\n        angles = [np.pi - (h[i] - h[i - 1]) for i in range(nn)]")
+bad('c11-cover-late', 'C11', 'COVER', 'mulgrids.py', "                    if all([concol in bisect_edge_columns for concol in con.column]):", "                    if all([concol not in columns for concol in con.column]):")
+bad('c12-cacheinv', 'C12', 'CACHEINV', 'mulgrids.py', "        return bounds_of_points([node.pos for node in self.node])\n    bounding_box = property(get_bounding_box)", "        if getattr(self, '_bb', None) is None:\n            self._bb = bounds_of_points([node.pos for node in self.node])\n        return self._bb\n    bounding_box = property(get_bounding_box)")
+bad('c14-divsafe', 'C14', 'DIVSAFE', 'IAPWS97.py', "        d = 2.0 * g / (-f - sqrt(f * f - 4. * e * g))", "        d = (-f + sqrt(f * f - 4. * e * g)) / (2.0 * e)")
+twin('c14-divsafe-twin', 'C14', 'IAPWS97.py', "        d = 2.0 * g / (-f - sqrt(f * f - 4. * e * g))", "        disc = f * f - 4. * e * g\n        d = 2.0 * g / (-f - sqrt(disc))")
+bad('c09-part-unscaled', 'C09', 'PART', 't2grids.py', "            volume_fractions /= np.sum(volume_fractions)\n            vf0 = 1. - volume_fractions[0]", "            vfrac = volume_fractions / np.sum(volume_fractions)\n            vf0 = 1. - vfrac[0]")
+bad('c19-total-atm', 'C19', 'TOTAL', 'mulgrids.py', "            if destlayer == geo.layerlist[0].name:\n                sourcelayer = self.layerlist[0].name", "            if destlayer == self.layerlist[0].name:\n                sourcelayer = self.layerlist[0].name")
+bad('c10-pred', 'C10', 'PRED', 'mulgrids.py', "layer.bottom < col.surface])", "layer.bottom <= col.surface])")
+bad('c20-pair', 'C20', 'PAIR', 't2data.py', "            self.generatorlist = keepgens\n            self.generator = dict([((gen.block, gen.name), gen) for gen in self.generatorlist])\n", "            self.generatorlist = keepgens\n")
+
 
 def _run_one(entry):
     i, pid, rule, kind, fname, old, new = entry
     src_path = os.path.join(os.environ.get('PYTOUGH_SA_SELFTEST_REPO', REPO), fname)
     with open(src_path, 'rb') as f:
         src = f.read().decode('utf-8', 'replace')
-    if old not in src:
+    olds, news = (old, new) if isinstance(old, (list, tuple)) else ([old], [new])
+    if any(o not in src for o in olds):
         return (i, pid, rule, kind, 'skipped', 'source fragment not present any more')
-    if old == new and kind == 'twin':
-        mutated = src
-    else:
-        mutated = src.replace(old, new, 1)
+    mutated = src
+    for o, n_ in zip(olds, news):
+        if o != n_: mutated = mutated.replace(o, n_, 1)
     d = tempfile.mkdtemp(prefix='pytough_sa_selftest_')
     try:
         for m in MODULES:
